@@ -574,7 +574,7 @@ TRANSPARENT = re.compile(
     r"|core::num::<impl \w+>::(saturating_\w+|wrapping_\w+|checked_\w+|min|max|pow|abs_diff)"
     r"|core::future::into_future::IntoFuture::into_future|<.* as core::future::into_future::IntoFuture>::into_future"
     r"|core::future::future::Future::poll|<.* as core::future::future::Future>::poll"
-    r"|core::pin::Pin::<Ptr>::(new_unchecked|new|as_mut|get_mut)|alloc::boxed::Box::<T>::(new|pin)"
+    r"|core::future::get_context|core::pin::Pin::<Ptr>::(new_unchecked|new|as_mut|get_mut)|alloc::boxed::Box::<T>::(new|pin)"
     r"|alloc::sync::Arc::<T>::new|core::borrow::Borrow::borrow|alloc::borrow::ToOwned::to_owned"
     r"|core::iter::traits::iterator::Iterator::(map|filter|cloned|copied|collect|enumerate|zip|rev|take|skip|chain|peekable|next|last|max|min|sum|count|filter_map|flat_map)"
     r"|<.* as core::iter::traits::iterator::Iterator>::(map|filter|cloned|copied|collect|enumerate|zip|rev|take|skip|chain|next|last|max|min|sum|count|filter_map)"
